@@ -74,6 +74,10 @@ func genFD(t *rapid.T) FDCase {
 	if c.FailFirst <= 0 || c.DQType == "" {
 		c.Split = rapid.IntRange(0, 3).Draw(t, "split") == 0
 	}
+	// retry < 0: the documented "retry forever" - only against a primary that recovers
+	if c.FailFirst >= 0 && rapid.IntRange(0, 5).Draw(t, "retry_forever") == 0 {
+		c.Retry = -rapid.IntRange(1, 3).Draw(t, "retry_neg")
+	}
 	return c
 }
 
@@ -103,7 +107,7 @@ func fdEndpoint(got map[string]int, mu *sync.Mutex, hits *atomic.Int32, failFirs
 func runFD(c FDCase) *vkit.Outcome {
 	o := vkit.NewOutcome()
 	okType := map[string]bool{"http": true, "elasticsearch": true}
-	if !okType[c.OutType] || (c.DQType != "" && !okType[c.DQType]) || c.Events < 1 || c.Events > 64 || c.BatchSize < 1 || c.Retry < 0 || c.DQRetry < 0 {
+	if !okType[c.OutType] || (c.DQType != "" && !okType[c.DQType]) || c.Events < 1 || c.Events > 64 || c.BatchSize < 1 || (c.Retry < 0 && c.FailFirst < 0) || c.DQRetry < 0 {
 		o.Class("invalid-case")
 		return o
 	}
@@ -259,6 +263,21 @@ func runFD(c FDCase) *vkit.Outcome {
 		o.Class("fd-config:split-action")
 		if gaveUp {
 			o.Class("fd-config:children-and-parents-through-the-dead-queue")
+		}
+	}
+	if c.Retry < 0 {
+		o.Class("fd-config:retry-forever")
+		for i := 0; i < c.Events; i++ {
+			ids := []string{fmt.Sprint(i)}
+			if c.Split {
+				ids = []string{fmt.Sprint(1000 + 2*i), fmt.Sprint(1001 + 2*i)}
+			}
+			for _, id := range ids {
+				if primaryGot[id] == 0 {
+					o.Failf(P, "fd-config:unlimited-retry-gave-up", "%s: retry %d means no limit and the primary accepts everything after its first %d answers, yet event %s was never accepted by it (dead-queue endpoint got it %d times, its source event was committed %d times)", what, c.Retry, c.FailFirst, id, reserveGot[id], commits[fmt.Sprint(i)])
+					break
+				}
+			}
 		}
 	}
 	if c.FailFirst < 0 && int(primaryHits.Load()) < c.Retry+1 {
